@@ -395,3 +395,51 @@ pub(crate) fn lib_drop_inner_contract() {
 pub(crate) fn lib_drop_inner_contract_count_two_unfinalized() {
     drop_inner_case(2);
 }
+
+// ------------------------------------------------------------------------------------------------
+// deallocate_list / __collect on explicit non-root sets (bounded by list length 2)
+// ------------------------------------------------------------------------------------------------
+/// deallocate_list over a set of two objects: every destructor runs exactly once, under `dropping`
+/// (and not tracing), each object marked dropped first; then both boxes are released with their layout,
+/// allocated_bytes decreases by exactly their sizes, `dropping` is restored.
+//@ C03 C02 C08 C12 | bounded: non-root set of 2 objects | deciding | feat=full,std | fn=deallocate_list,CcBox::drop_inner,cc_dealloc,CcBox::layout | timeout=900
+#[kani::proof]
+#[kani::unwind(9)]
+pub(crate) fn lib_deallocate_list_two_members() {
+    let a = ccp::mk_node(0);
+    let b = ccp::mk_node(1);
+    let (x, y) = (ccp::raw_of(&a), ccp::raw_of(&b));
+    core::mem::forget((a, b));
+    // as the collector leaves a garbage set: InList, tracing counter == counter (here: no internal edges)
+    let fin: bool = kani::any();
+    ccp::set_words_of(x, 0x8000, if fin { 0x4000 } else { 0 });
+    ccp::set_words_of(y, 0x8000, 0x4000);
+    let first = lp::chain(&[x, y], 2);
+    state(|s| sp::set_flags(s, true, false, false));
+    let sn0 = state(|s| sp::snap(s));
+    state(|s| crate::deallocate_list(lp::ll_from(first), s));
+    let gs = g();
+    kani::assert(gs.n_drop == 2 && gs.drop_calls[0] == 1 && gs.drop_calls[1] == 1 && gs.double_drop == 0, "deallocate_list::post::every_member_dropped_exactly_once");
+    kani::assert(gs.drop_flags & 4 != 0 && gs.drop_while_tracing == 0, "deallocate_list::post::destructors_run_under_dropping_not_tracing");
+    kani::assert(gs.drop_not_marked_dropped == 0, "deallocate_list::post::marked_dropped_before_destructor");
+    kani::assert(gs.n_fin == 0 && gs.n_trace == 0 && gs.canary_broken == 0, "deallocate_list::frame::no_other_callback");
+    let sn1 = state(|s| sp::snap(s));
+    kani::assert(sn1.bytes == sn0.bytes - 2 * ccp::NODE_BOX, "deallocate_list::post::allocated_bytes_minus_member_sizes");
+    kani::assert(sp::Snap { bytes: sn0.bytes, ..sn1 } == sn0, "deallocate_list::post::dropping_flag_restored");
+    kani::assert(ccp::pc_view().1 == 0, "deallocate_list::frame::buffer");
+}
+
+/// ... and the boxes really are released (CBMC must flag the read).
+//@ C03 C02 | bounded: non-root set of 1 object | deciding | feat=full | fn=deallocate_list | mustfail=expect_freed | timeout=600
+#[kani::proof]
+#[kani::unwind(9)]
+pub(crate) fn lib_deallocate_list_releases_boxes() {
+    let a = ccp::mk_node(0);
+    let x = ccp::raw_of(&a);
+    core::mem::forget(a);
+    ccp::set_words_of(x, 0x8000, 0x4000);
+    let first = lp::chain(&[x], 1);
+    state(|s| sp::set_flags(s, true, false, false));
+    state(|s| crate::deallocate_list(lp::ll_from(first), s));
+    let _ = crate::utils::verif_proofs::expect_freed(x.as_ptr() as *const u8);
+}
